@@ -107,6 +107,11 @@ def rechunker(
 
     write_time_start = time.time()
     _exhaust_generator(executor, saver, load_wrapper, data_loader, rechunk, _timeout)
+    if saver.got_exception is not None:
+        # A write on the executor failed: do not replace the source with a broken copy
+        raise RuntimeError(
+            f"Writing {dest_directory} failed, {source_directory} is left untouched"
+        ) from saver.got_exception
     if not os.path.exists(dest_directory):  # type: ignore
         raise FileNotFoundError(f"{dest_directory} not found, did one of the savers die?")
     load_time = sum(load_time_seconds)
